@@ -175,15 +175,27 @@ Record json := mkjson {
   j_unsafe : bool;
   j_added : list str }.
 
-(* Project.save: __dict__ minus _environment/_django, keys lstrip('_'), path -> str;
-   json.dump raises TypeError on a pathlib.Path value (None here) *)
-Definition save (p : project) : option json :=
+(* Project.save: __dict__ minus _environment/_django, keys lstrip('_'), path -> str,
+   environment_path -> str when it is not None (it may be a pathlib.Path, which json cannot
+   serialise) *)
+Definition save (p : project) : json :=
+  mkjson (path_str (pr_path p)) (option_map arg_str (pr_env p))
+         (pr_sys_path p) (pr_smart p) (pr_unsafe p) (pr_added p).
+
+(* the behaviour before commit ba5f9c2 ("fix: Project.save() with a pathlib.Path
+   environment_path"), kept for the record: json.dump raised TypeError on a Path value
+   (None here) *)
+Definition save_old (p : project) : option json :=
   match pr_env p with
   | Some (PPath _) => None
-  | e => Some (mkjson (path_str (pr_path p))
-                      (match e with Some (PStr s) => Some s | _ => None end)
-                      (pr_sys_path p) (pr_smart p) (pr_unsafe p) (pr_added p))
+  | _ => Some (save p)
   end.
+
+Definition set_env (e : option parg) (p : project) : project :=
+  mkproject (pr_path p) e (pr_sys_path p) (pr_smart p) (pr_unsafe p) (pr_django p) (pr_added p).
+
+(* what a loaded project holds for environment_path: the str of what was given *)
+Definition env_as_str (e : option parg) : option parg := option_map (fun x => PStr (arg_str x)) e.
 
 (* Project.load: cls(data as keyword arguments), every value is a str / list of str / bool / None *)
 Definition load (cwd : path) (j : json) : project :=
